@@ -60,7 +60,13 @@ class Init:
         self.den = den
 
     def build(self):
-        return RM.Mesh(glue_space=self.glued, initial_space_mesh=list(self.space),
+        glue = self.glued
+        if self.name.endswith("-npflag"):
+            # the closed flag as callers produce it (MeshParametrized hands over gamma.closed, which is a numpy bool when it comes from
+            # a comparison such as np.all(v[0] == v[-1])): truthy / falsy, but not the object True / False
+            import numpy as _np
+            glue = _np.bool_(self.glued)
+        return RM.Mesh(glue_space=glue, initial_space_mesh=list(self.space),
                        initial_time_mesh=list(self.time))
 
     def view(self):
@@ -86,6 +92,8 @@ def make_families():
             name = "{}x{}-{}".format(nt, nx, "glued" if glued else "open")
             fams[name] = Init(name, _grid(nt), _grid(nx), glued)
     fams["uneven-glued"] = Init("uneven-glued", [0, F(1, 3), 1], [0, F(1, 4), 1], True)
+    fams["1x2-glued-npflag"] = Init("1x2-glued-npflag", _grid(1), _grid(2), True)
+    fams["2x1-open-npflag"] = Init("2x1-open-npflag", _grid(2), _grid(1), False)
     return fams
 
 
@@ -779,6 +787,25 @@ def interleaved_specs(tier, seed):
                 op(k)
             specs.append(dict(kind="interleaved", inits=[i.spec() for i in inits], events=events, pattern=pattern))
     return specs
+
+
+def _deep_task(task):
+    fam, target, depth = task
+    init = FAMILIES[fam]
+    run = Run(init)
+    fails, nops = [], 0
+    pt = (F(0), F(0)) if target == "corner" else (F(1, 3), F(1, 3))
+    for k in range(depth):
+        rects = [r for r in run.view.leaves if r[0] <= pt[0] <= r[1] and r[2] <= pt[1] <= r[3]]
+        r = min(rects, key=lambda r: ((r[1] - r[0]) * (r[3] - r[2]), r))
+        bad = run.apply(("refine", r), check=True)
+        nops += 1
+        if bad:
+            spec = dict(kind="history", init=init.spec(), ops=history_json(run.history))
+            for clause, detail in bad:
+                fails.append(_failure("deep", clause, spec, detail, len(run.history)))
+            break
+    return nops, fails
 
 
 def _interleaved_task(spec):
@@ -1578,6 +1605,27 @@ def _run_structure(chk, prop, tier, seed, pool, log):
                     "it created)".format(ref.FULL_SCAN_LIMIT),
                     rr["samples"])
     log("random: {} evaluations in {:.1f}s".format(rr["evals"], time.time() - t0))
+    # deep refinement towards a corner and towards an interior point (levels up to 30 / 34: coordinates and sizes down to 1e-10; nothing
+    # in the bookkeeping may compare coordinates "up to rounding")
+    deep = []
+    for fam in ("1x1-open", "1x1-glued", "2x2-glued", "uneven-glued"):
+        for target in ("corner", "interior"):
+            deep.append((fam, target, 30 if tier == "quick" else 34))
+    ctx0 = multiprocessing.get_context("fork")
+    with ctx0.Pool(min(NPROC, len(deep)), maxtasksperchild=1) as p0:
+        douts = p0.map(_deep_task, deep, 1)
+    n_deep = 0
+    for (fam, target, depth), (nops, fails) in zip(deep, douts):
+        n_deep += nops
+        seen_c = set()
+        for f in fails:
+            if f["clause"] not in seen_c and mine(f["clause"]):
+                seen_c.add(f["clause"])
+                fd.add_fail(f)
+    fd.mark_checked("deep", own, n_deep)
+    chk.add_bounded("{}/bounded/deep-refinement".format(prop), n_deep, len(deep),
+                    "4 initial meshes x (towards the corner (0, 0) / towards the interior point (1/3, 1/3)), {} combined bisections each".format(deep[0][2]),
+                    "full class invariant + reference closure after every operation", [])
     # several meshes alive at once (class- or module-level bookkeeping shared between meshes shows only here)
     specs = interleaved_specs(tier, seed)
     ctx = multiprocessing.get_context("fork")
